@@ -10,7 +10,7 @@ import sys
 
 REPO = os.environ.get("VERIF_REPO", "/repo")
 sys.path.insert(0, REPO)
-from wpilib.simulation import AnalogInputSim  # noqa: E402
+from wpilib.simulation import AnalogInputSim, RoboRioSim  # noqa: E402
 from robotpy_ext.common_drivers import distance_sensors as ds  # noqa: E402
 from robotpy_ext.common_drivers import distance_sensors_sim as dss  # noqa: E402
 
@@ -48,6 +48,12 @@ def main():
         sim = AnalogInputSim(s.distance)
         obs = []
         for k in range(4096):
+            if k % 512 == 0:
+                # the reading is a function of the channel voltage alone: the supply rails of the (simulated) roboRIO
+                # wander while the codes are swept
+                RoboRioSim.setUserVoltage5V([5.0, 4.75, 5.2, 4.9][(k // 512) % 4])
+                RoboRioSim.setVInVoltage([12.0, 7.5, 13.1][(k // 512) % 3])
+                RoboRioSim.setUserVoltage3V3([3.3, 3.1][(k // 512) % 2])
             sim.setVoltage(5.0 * k / 4096)
             try:
                 obs.append(ucm(s.getDistance()))
@@ -64,6 +70,7 @@ def main():
                 sp.append({"v": repr(v), "low": low, "obs": -1, "finite": False, "err": str(e)})
         out["special"][name] = sp
         sm = []
+        RoboRioSim.setUserVoltage5V(4.8 if name.endswith("@hi") else 5.0)
         try:
             helper = simcls(s)
         except Exception as e:  # noqa  (e.g. the helper refuses the sensor object)
